@@ -156,6 +156,7 @@ type WorkerResult struct {
 	Rule          string            `json:"rule"`
 	BudgetHit     bool              `json:"budget_hit"`
 	Replay        *ReplayResult     `json:"replay,omitempty"`
+	RunHashes     []string          `json:"run_hashes,omitempty"` // mode "hashes": one line per run
 }
 
 type ReplayResult struct {
@@ -206,8 +207,46 @@ func RunJob(t *testing.T, job Job) WorkerResult {
 		if job.Journal != "" {
 			os.WriteFile(job.Journal, raw, 0o644)
 		}
+		if job.Mode == "hunt" {
+			sc.GetMeta().Full = true
+		}
 		out := p.Run(t, sc)
 		res.Runs++
+		if res.Runs%200 == 0 {
+			runtime.GC()
+			if os.Getenv("SIM_MEMLOG") != "" {
+				var ms runtime.MemStats
+				runtime.ReadMemStats(&ms)
+				fmt.Fprintf(os.Stderr, "mem: runs=%d heapInuse=%dMB sys=%dMB goroutines=%d\n", res.Runs, ms.HeapInuse>>20, ms.Sys>>20, runtime.NumGoroutine())
+			}
+		}
+		if job.Mode == "hunt" {
+			out2 := p.Run(t, sc)
+			if out2.Res.Hash != out.Res.Hash {
+				res.HashMismatch++
+				a, b := out.Res.Trace, out2.Res.Trace
+				i := 0
+				for i < len(a) && i < len(b) && a[i] == b[i] {
+					i++
+				}
+				lo := i - 25
+				if lo < 0 {
+					lo = 0
+				}
+				hiA, hiB := i+6, i+6
+				if hiA > len(a) {
+					hiA = len(a)
+				}
+				if hiB > len(b) {
+					hiB = len(b)
+				}
+				res.MismatchNotes = append(res.MismatchNotes, fmt.Sprintf("run %d diverges at line %d\nCOMMON+A:\n%s\nB:\n%s\nscenario=%s", idx, i,
+					strings.Join(a[lo:hiA], "\n"), strings.Join(b[i:hiB], "\n"), truncate(string(raw), 1500)))
+			}
+		}
+		if job.Mode == "hashes" {
+			res.RunHashes = append(res.RunHashes, fmt.Sprintf("%d/%d %016x steps=%d sig=%s", idx, res.Runs, out.Res.Hash, out.Res.Steps, Signature(out.Res.Violation)))
+		}
 		m := sc.GetMeta()
 		res.Strategies[m.Strategy]++
 		if m.Class != "" {
@@ -306,9 +345,6 @@ func RunJob(t *testing.T, job Job) WorkerResult {
 			continue
 		}
 		runOne(idx, p.Gen(r, job.Tier, idx))
-		if res.Runs%200 == 0 {
-			runtime.GC()
-		}
 	}
 	for k := range switches {
 		res.Switches = append(res.Switches, fmt.Sprintf("%x", k))
@@ -325,6 +361,10 @@ func RunJob(t *testing.T, job Job) WorkerResult {
 		}
 	}
 	res.Wall = time.Since(start).Seconds()
+	var ms runtime.MemStats
+	runtime.ReadMemStats(&ms)
+	res.Probes["worker.sys_mb"] = int(ms.Sys >> 20)
+	res.Probes["worker.goroutines"] = runtime.NumGoroutine()
 	return res
 }
 
